@@ -654,8 +654,29 @@ def expected_observation(item, cfg, q, spec, all_answers):
     return None
 
 
+def attach(report, named_items, harness, render=lambda it: it.rust()):
+    """Remember, for every failure, the item object and the harness that observed it (executable replays)."""
+    by_src = {}
+    for _, it in named_items:
+        by_src.setdefault(render(it), it)
+    fl = list(report.get('failures', []))
+    ce = report.get('compile_errors')
+    if isinstance(ce, dict):
+        fl += list(ce.values())
+    for f in fl:
+        it = by_src.get(f.get('source'))
+        if it is not None:
+            f['_item'], f['_harness'] = it, harness
+    return report
+
+
 def run_b(cfg, named_items, hostile=False):
     """named_items: [(name, Item)] all `compatible`. Returns a report dict."""
+    return attach(run_b_(cfg, named_items, hostile), named_items,
+                  'B-nip' if hostile == 'nip' else 'B-hostile' if hostile else 'B')
+
+
+def run_b_(cfg, named_items, hostile=False):
     mods, qss = [], []
     for idx, (name, it) in enumerate(named_items):
         qs = [] if getattr(it, 'expect_error', None) else queries_for(it, cfg)
